@@ -6,8 +6,9 @@ inheritPropertiesFromUserType; pure closure coq/spec/AllOfSpec.v).
 Evidence produced on every run, on /repo's working tree:
   1. MODEL SEARCH: compare_env (heap model vs spec_tree) evaluated by the extracted model on every
      labelled inheritance graph of the enumeration (all allOf lists over earlier and later types =
-     all declaration orders; nested objects, arrays, use sites of all kinds).  A difference outside
-     the KNOWN classes is a violation.
+     all declaration orders; nested objects, arrays, use sites of all kinds).  Any difference is a
+     violation (the verdict line also says whether the project is in the class of the proved theorem:
+     skeleton=1).
   2. UNIT CORRESPONDENCE: the real (*JApiCore).ProcessAllOf on hand-built catalogs vs the model,
      without the schema library in between (diamonds, overrides, cycles, nil ContentJSight: the paths
      a document cannot reach because the library rejects first).
@@ -20,9 +21,8 @@ Evidence produced on every run, on /repo's working tree:
      the implementation's verdict.
 
 KNOWN lists the classes of ACCEPTED documents where the unchanged code contradicts the property
-(each proved as `*_refuted` in props/C12.v and reproduced on the real code); inputs in exactly
-those classes, on which the implementation behaves exactly as the model predicts, are reported
-as KNOWN-FINDING; anything else is a violation.
+(each to be proved as `*_refuted` in props/C12.v and reproduced on the real code); it is empty
+since the two classes found in the first round were repaired in /repo: every deviation is a violation.
 """
 import itertools
 import json
@@ -32,20 +32,11 @@ from .. import allofgen as G
 from .. import common as C
 from .. import proj as P
 
-KNOWN = [
-    {"id": "C12/allof-inside-array-not-expanded",
-     "class": "array",
-     "theorem": "allof_in_array_refuted",
-     "witness": "TYPE @a {\"a\":1}  GET /x 200 [ { // {allOf: \"@a\"}\\n \"z\": 1 } ]  => the item object lists z only",
-     "when": "an object with an allOf rule is an array item, or lies anywhere below an array "
-             "(processSchemaContentJSightAllOf returns at `sc.TokenType != object` without descending)"},
-    {"id": "C12/allof-in-jsonrpc-params-result-not-expanded",
-     "class": "rpc",
-     "theorem": "allof_in_rpc_refuted",
-     "witness": "URL /r  Protocol json-rpc-2.0  Method m  Params { // {allOf: \"@a\"} }  => params lists nothing",
-     "when": "the schema of a JSON-RPC Params or Result directive contains an allOf rule "
-             "(ProcessAllOf visits HTTP interactions only)"},
-]
+# Known counterexample classes of the unchanged code: none.  (Until /repo a2c8521 and d4084b3 there
+# were two — allOf on an object below an array, allOf in JSON-RPC Params/Result — see the fixed
+# entries of known_findings.json.)  A class listed here must name the `*_refuted` theorem of
+# props/C12.v, and allofgen.DEVIATIONS must know how the rendering deviates.
+KNOWN = []
 KNOWN_BY_CLASS = {k["class"]: k for k in KNOWN}
 
 S, O, A = G.S, G.O, G.A
@@ -339,7 +330,7 @@ def run(res, tier, seed, replay):
         for (t, u, _), e, o, a, b in zip(chunk, encs, out, um, ui):
             head = o.split(" ")[0]
             cls_count[o] = cls_count.get(o, 0) + 1
-            if head == "modelfails" or (head.startswith("differs") and " arrays=0 rpc=0" in o):
+            if head == "modelfails" or head.startswith("differs"):
                 search_bad.append((t, u, o))
             if head != "rejected" and not u:
                 accepted.append(t)
@@ -381,7 +372,7 @@ def run(res, tier, seed, replay):
     res.notes["unit_correspondence"] = unit_stats
     res.notes["model_search"] = {"environments": n_search, "verdicts": cls_count,
                                  "meaning": "compare_env of spec/AllOfSpec.v evaluated by the extracted model; "
-                                            "differs outside arrays=1/rpc=1 or modelfails = violation"}
+                                            "differs or modelfails = violation"}
 
     # 3 + 4: documents
     docs = [make_doc(t, u) for t, u, _ in cases]
@@ -437,7 +428,8 @@ def run(res, tier, seed, replay):
             # exactly a known deviation?  the rendering must be the property's with some of the
             # document's known classes switched on, nothing else
             explained = None
-            for sub in ([c] for c in sorted(cl)), [sorted(cl)]:
+            kcl = sorted(c for c in cl if c in KNOWN_BY_CLASS)
+            for sub in ([c] for c in kcl), [kcl]:
                 for cs in sub:
                     if cs and G.py_spec_deviating(types, uses, cs) == ("ok", ir):
                         explained = explained or cs
@@ -486,7 +478,7 @@ def judge(res, pr, spec_bad, corr_bad, search_bad):
         if len(seen) >= 5:
             break
     for types, uses, o in search_bad[:3]:
-        res.violation("model search: the heap model differs from spec_inherit outside the known classes: %s on %s  document: %r" % (
+        res.violation("model search: the heap model differs from spec_inherit: %s on %s  document: %r" % (
             o, G.enc_env(types, uses), make_doc(types, uses)),
             {"env": env_json(types, uses), "encoding": G.enc_env(types, uses), "document": make_doc(types, uses),
              "theorem": "allof_correct"})
